@@ -7,11 +7,15 @@ pub mod bytesgen;
 pub mod c01;
 pub mod c02;
 pub mod c03;
+pub mod c04;
 pub mod c05;
 pub mod c06;
 pub mod c07;
 pub mod c09;
+pub mod c11;
 pub mod c12;
+pub mod c13;
+pub mod c14;
 pub mod codec;
 
 pub fn run(prop: &str, leg: &str, ctx: &Ctx, rep: &mut Report) -> bool {
@@ -24,6 +28,7 @@ pub fn run(prop: &str, leg: &str, ctx: &Ctx, rep: &mut Report) -> bool {
         ("C02", "boundary") => c02::boundary(ctx, rep),
         ("C03", "decoders") => c03::decoders(ctx, rep),
         ("C03", "verify-hostile") => c03::verify_hostile(ctx, rep),
+        ("C04", "keys") => c04::keys(ctx, rep),
         ("C05", "roundtrip") => c05::roundtrip(ctx, rep),
         ("C06", "canonical") => c06::canonical(ctx, rep),
         ("C07", "small-exhaustive") => c07::small_exhaustive(ctx, rep),
@@ -33,6 +38,11 @@ pub fn run(prop: &str, leg: &str, ctx: &Ctx, rep: &mut Report) -> bool {
         ("C09", "totality") => c09::totality(ctx, rep),
         ("C09", "distribution") => c09::distribution(ctx, rep),
         ("C09", "in-situ") => c09::in_situ(ctx, rep),
+        ("C11", "tables") => c11::tables(ctx, rep),
+        ("C11", "products") => c11::products(ctx, rep),
+        ("C13", "table") => c13::table(ctx, rep),
+        ("C13", "accuracy") => c13::accuracy(ctx, rep),
+        ("C14", "differential") => c14::differential(ctx, rep),
         ("C12", "exhaustive") => c12::exhaustive(ctx, rep),
         _ => return false,
     }
@@ -47,6 +57,10 @@ pub fn replay(v: &Value) -> bool {
         "C12" => c12::replay(r),
         "C07" => codec::replay(r),
         "C03" => c03::replay(r),
+        "C04" => c04::replay(r),
+        "C11" => c11::replay(r),
+        "C13" => c13::replay(r),
+        "C14" => c14::replay(r),
         "C01" => c01::replay(r),
         "C09" => c09::replay(r),
         "C05" => c05::replay(r),
